@@ -136,9 +136,68 @@ def run_collection(case, ctx):
     ctx.outcome(("coll", idx))
 
 
+def _tripod(leg):
+    n = 3 * leg + 1
+    A = [[0] * n for _ in range(n)]
+    for a in range(3):
+        prev = 0
+        for k in range(leg):
+            v = 1 + a * leg + k
+            A[min(prev, v)][max(prev, v)] = 1
+            prev = v
+    return A
+
+
+LARGE = [("path", 99), ("path", 110), ("path", 127), ("path", 130), ("cycle", 140), ("tripod", 40), ("tripod", 33)]
+
+
+def run_large(case, ctx):
+    """Graphs with around a hundred vertices (diameters beyond the range of int8): no exhaustive oracle, but
+    a graph against a relabelled copy of itself has distance 0 (so lb must be 0), and for any pair
+    0 <= lb <= ub and lb <= max diameter / 2 (the distance of any two spaces is at most that)."""
+    from mc.choices import Chooser
+    from persim import gromov_hausdorff
+
+    def build(kind, n):
+        return {"path": _path, "cycle": _cycle, "tripod": _tripod}[kind](n)
+
+    A = build(*LARGE[case["i"]])
+    n = len(A)
+    rev = mgh.relabel(A, list(range(n))[::-1])
+    partners = [("itself relabelled", rev, 0)]
+    if case["i"] + 1 < len(LARGE):
+        partners.append(("the next larger graph", build(*LARGE[case["i"] + 1]), None))
+    partners.append(("a path on 81 vertices", _path(81), None))
+    with _seam.installed():
+        for what, B, truth2 in partners:
+            for X, Y in ((A, B), (B, A)):
+                _seam.cache = {}
+                _seam.start_run(Chooser(()))
+                ctx.trans()
+                ctx.state(("large", case["i"], what, X is A))
+                res = gromov_hausdorff(np.array(X), np.array(Y))
+                ctx.valid()
+                try:
+                    lb, ub = float(res[0]), float(res[1])
+                except Exception:  # noqa: BLE001
+                    ctx.violation("result-shape", "gromov_hausdorff did not return a pair of numbers", observed=repr(res))
+                    continue
+                dmax = max(int(mgh.bfs_dist(X).max()), int(mgh.bfs_dist(Y).max()))
+                ex = {"graph": list(LARGE[case["i"]]), "partner": what}
+                if not (0 <= lb <= ub) or lb > dmax / 2.0 or (2 * lb) != int(2 * lb) or (2 * ub) != int(2 * ub):
+                    ctx.violation("large-graph-bounds", "bounds of a %d-vertex graph against %s violate 0 <= lb <= ub, lb <= max diameter/2 or the half-integer grid" % (n, what),
+                                  observed=[lb, ub], expected={"max_diameter": dmax}, extra=ex)
+                elif truth2 == 0 and lb != 0:
+                    ctx.violation("isomorphic-lb", "a %d-vertex graph against a relabelled copy of itself must get lower bound 0" % n, observed=[lb, ub], expected=0.0, extra=ex)
+    ctx.nontriv("graph_with_%d_vertices" % n)
+    ctx.outcome(("large", case["i"]))
+
+
 def cases(tier):
     import itertools
 
+    for i in (range(len(LARGE)) if tier == "thorough" else (0, 2, 5)):
+        yield {"kind": "large", "i": i}
     for c in small_cases(tier):
         yield c
     nc = len(coll_cover(tier))
@@ -262,6 +321,8 @@ def run_case(case, ctx):
         return run_big(case, ctx)
     if case.get("kind") == "collection":
         return run_collection(case, ctx)
+    if case.get("kind") == "large":
+        return run_large(case, ctx)
     A, B = case["A"], case["B"]
     truth2 = {mgh.exact_double(mgh.bfs_dist(A).astype(np.int64), mgh.bfs_dist(B).astype(np.int64))}
     NA, NB = np.array(A), np.array(B)
